@@ -61,6 +61,7 @@ func C13(c *Ctx) {
 	r.Rule("C13-g", "counter loops of the generator are well-formed: a loop whose condition is `i < len(X)` (or `i < K`, `j < K && …`) starts from a value not above the bound's domain and steps upwards (i++, i += k); a loop with condition `i >= 0` steps downwards; so each terminates and indexes X[i] (and X[i+1] for stride 2 over a pair list) in range")
 	r.Rule("C13-h", "inlining by -optimize-grammar terminates: a rule reference is replaced by a clone of the rule only if the rule is defined and has no entry in ruleUsesRules, and that map records every reference of every rule (self references included) unconditionally - so the clone contains no reference and cannot be inlined again")
 	r.Rule("C13-i", "no store into a possibly nil map: every `m[k] = v` in the generator whose m is a local map variable has only definitions that yield a non-nil map (make, a map literal, or a call to a function of the package all of whose returns are such values); parameters, fields and map elements are the owner's responsibility and are covered by the rules of their owner")
+	r.Rule("C13-j", "every index with a constant or len(x)-1 subscript into a string or slice in the generator (x[0], x[len(x)-1]) is dominated by a length test of the same x: a conjunct to its left in the same condition, an enclosing if, or an early exit `if len(x) == 0 { return }` after the last assignment to x (empty code blocks `{}` and empty classes `[]` are valid grammar text)")
 	r.Rule("C13-c", "main passes Recover(!*noRecoverFlag) to ParseReader")
 
 	g := c.G()
@@ -112,6 +113,7 @@ func C13(c *Ctx) {
 	optimizerInlining(c, g, "C13-h")
 	c13IO(c, g)
 	c13NilMaps(c, g)
+	c13ConstIndex(c, g)
 	c13Exit(c, g)
 	if c.Thorough() {
 		c13CrossRef(c, g)
@@ -1368,4 +1370,117 @@ func c13NilMaps(c *Ctx, g *load.G) {
 		}
 	}
 	r.Min("C13-i map stores into locals", 12, n)
+}
+
+// c13ConstIndex (C13-j).
+func c13ConstIndex(c *Ctx, g *load.G) {
+	r := c.R
+	n := 0
+	lenTest := func(cond, x string) bool {
+		// conjuncts of cond that prove len(x) >= 1
+		for _, cj := range strings.Split(cond, "&&") {
+			cj = strings.TrimSuffix(strings.TrimPrefix(cj, "("), ")")
+			for _, ok := range []string{"len(" + x + ")>0", "len(" + x + ")>=1", "len(" + x + ")!=0", "len(" + x + ")==1", "len(" + x + ")>1", "len(" + x + ")>=2", "len(" + x + ")==2", "0<len(" + x + ")"} {
+				if cj == ok {
+					return true
+				}
+			}
+		}
+		return false
+	}
+	for _, suffix := range []string{"", "ast", "builder"} {
+		pkg := g.Pkg(suffix)
+		if pkg == nil {
+			continue
+		}
+		info := pkg.TypesInfo
+		for i, f := range pkg.Syntax {
+			fn := pkg.CompiledGoFiles[i]
+			if strings.HasSuffix(fn, "/pigeon.go") || strings.HasSuffix(fn, "_test.go") || strings.HasSuffix(fn, "generated_static_code.go") || strings.HasSuffix(fn, "generated_static_code_range_table.go") {
+				continue
+			}
+			for _, d := range f.Decls {
+				fd, ok := d.(*ast.FuncDecl)
+				if !ok || fd.Body == nil {
+					continue
+				}
+				var stack []ast.Node
+				ast.Inspect(fd.Body, func(nd ast.Node) bool {
+					if nd == nil {
+						stack = stack[:len(stack)-1]
+						return true
+					}
+					stack = append(stack, nd)
+					ix, ok := nd.(*ast.IndexExpr)
+					if !ok {
+						return true
+					}
+					tv, ok := info.Types[ix.X]
+					if !ok {
+						return true
+					}
+					switch tv.Type.Underlying().(type) {
+					case *types.Slice:
+					case *types.Basic:
+						if tv.Type.Underlying().(*types.Basic).Info()&types.IsString == 0 {
+							return true
+						}
+					default:
+						return true
+					}
+					x := nospace(ix.X)
+					sub := nospace(ix.Index)
+					if sub != "0" && sub != "len("+x+")-1" {
+						return true
+					}
+					if x == "os.Args" {
+						return true // os.Args[0] exists by the process contract
+					}
+					n++
+					construct := "G." + suffix + "." + load.RecvName(fd) + "." + fd.Name.Name + ":index " + x + "[" + sub + "]"
+					proved := ""
+					// (i) enclosing conditions (if / && left operand)
+					for k := len(stack) - 2; k >= 0 && proved == ""; k-- {
+						switch p := stack[k].(type) {
+						case *ast.BinaryExpr:
+							if p.Op == token.LAND && p.Y.Pos() <= ix.Pos() && ix.End() <= p.Y.End() && lenTest(nospace(p.X), x) {
+								proved = "left conjunct " + nospace(p.X)
+							}
+						case *ast.IfStmt:
+							if p.Body.Pos() <= ix.Pos() && ix.End() <= p.Body.End() && lenTest(nospace(p.Cond), x) {
+								proved = "enclosing if " + nospace(p.Cond)
+							}
+						}
+					}
+					// (ii) early exit after the last assignment to x
+					if proved == "" {
+						var lastAssign, guard token.Pos
+						ast.Inspect(fd.Body, func(m ast.Node) bool {
+							switch y := m.(type) {
+							case *ast.AssignStmt:
+								for _, l := range y.Lhs {
+									if nospace(l) == x && y.Pos() < ix.Pos() {
+										lastAssign = y.Pos()
+									}
+								}
+							case *ast.IfStmt:
+								if y.End() < ix.Pos() && y.Else == nil && (nospace(y.Cond) == "len("+x+")==0" || nospace(y.Cond) == "len("+x+")<1") && len(y.Body.List) > 0 {
+									if _, isRet := y.Body.List[len(y.Body.List)-1].(*ast.ReturnStmt); isRet {
+										guard = y.Pos()
+									}
+								}
+							}
+							return true
+						})
+						if guard.IsValid() && guard > lastAssign {
+							proved = "early exit on len(" + x + ") == 0 at " + g.Where(guard)
+						}
+					}
+					r.Check(proved != "", "C13-j", construct, "", g.Where(ix.Pos()), proved, "no length test of "+x+" dominates the subscript: an empty "+x+" (an empty code block, class or rule list) panics with index out of range")
+					return true
+				})
+			}
+		}
+	}
+	r.Min("C13-j constant subscripts", 6, n)
 }
